@@ -38,7 +38,7 @@ import (
 type Script struct {
 	// We declare a Script not as a string but as a struct wrapping a string
 	// to prevent construction of Script values through string conversion.
-	str string
+	script string
 }
 
 // ScriptFromConstant constructs a Script with its underlying script set
@@ -86,5 +86,5 @@ var jsIdentifierPattern = regexp.MustCompile(`^[$_a-zA-Z][$_a-zA-Z0-9]+$`)
 
 // String returns the string form of the Script.
 func (s Script) String() string {
-	return s.str
+	return s.script
 }
